@@ -3,7 +3,52 @@
 import json, os
 V = os.path.dirname(os.path.abspath(__file__))
 
+TB = ('Trusted: rustc nightly type checker / MIR construction / callee resolution; the bofacts extractor and the rule code (validated both ways by '
+      'selftest/); the oracle tables written down in sa/rules/oracle.py and in the rule modules. ')
+TECH_TABLE = 'decision-table extraction from MIR paths (path-sensitive abstract evaluation over finite-domain atoms) compared with set-theoretic oracle tables'
+TECH_PROV = 'provenance / must-pass-through checks over symbolic MIR paths (rustc_private driver)'
+
 CLAIMS = {
+    'C01': dict(level='other', technique=TECH_TABLE + '; argument provenance of the entry points',
+        text='Decides the finite tables through which every output edge is selected (in_result 64 rows, result transition of normal edges, flag '
+             'propagation from the predecessor, trivial-result table) and the plumbing of the 4 impls + 4 default methods into the single routine. '
+             'Necessary, not sufficient: membership of a point in an actual output also depends on the float sweep order, which is not decided.',
+        note=TB + 'Does not decide regions of actual outputs, sweep order, even-odd clause for self-crossing rings.', design='4/C01'),
+    'C02': dict(level='other', technique=TECH_TABLE + '; Fig.4 parent-case table and hole/parent pairing on MIR paths',
+        text='Decides the transition table of coincident twins, the four parent cases of Contour::initialize_from_context with the hole_of/hole_ids '
+             'pairing, the polygon assembly (exterior filter, rings from own points/hole_ids) and the prev_in_result table. Containment / '
+             'disjointness / merging of actual rings is run-time geometry and is not decided.',
+        note=TB, design='4/C02'),
+    'C03': dict(level='other', technique='call-graph SCC incl. drop glue, RefCell guard live-range analysis, sentinel-index dominance, panic-site inventory with ledger',
+        text='Decides: no RefCell borrow can fail (19 sites), no recursion reachable from the API incl. drop glue on teardown paths, no use of the -1 '
+             'contour-id sentinel as an index without a sign test (K2 is the listed known finding), constant indices of the local events vector in range; '
+             'all other panic-capable sites are an explicit ledger (new sites are reported). Termination, the quadratic event bound and the debug '
+             'assertions are NOT decided.',
+        note=TB + 'The ledger is an assumption list, not a proof.', design='4/C03'),
+    'C04': dict(level='other', technique=TECH_PROV,
+        text='Decides coordinate provenance: event points are input line endpoints or the caller-supplied division point; division points are the '
+             'clamped payload of intersection() or an existing event point; contour points are result-event points; every reported intersection is '
+             'clamped to the common bounding box (clamp table checked); divisions are guarded against endpoints. Closedness, area, orientation and '
+             'numeric accuracy are not decided.',
+        note=TB, design='4/C04'),
+    'C05': dict(level='other', technique='oracle-free identities between the extracted decision tables; operation-dependent site inventory',
+        text='Decides the cross-operation identities of the selection/transition tables (complementarity, inclusion-exclusion pointwise) and that the '
+             'operation influences the sweep only through the listed sites (exterior flag, early break for Intersection/Difference with the right bound).',
+        note=TB + 'Areas / disjointness of actual outputs are not decided.', design='4/C05'),
+    'C06': dict(level='other', technique=TECH_TABLE + '; provenance chain for the empty-operand law',
+        text='Decides fully (finite coordinates) the empty-operand and disjoint-boxes laws as a chain of static facts (initial boxes +inf/-inf, boxes '
+             'written only per non-collapsed edge, strict 4-comparison shortcut, trivial-result table); table-level symmetry of Intersection/Union/Xor '
+             'in is_subject; twin typing. Commutativity / self-operations on actual outputs are not decided.',
+        note=TB, design='4/C06'),
+    'C07': dict(level='other', technique=TECH_PROV + '; zero-count inventory with control',
+        text='Decides: the four trait impls forward (self->subject, rhs->clipping, operation) with whole operands; event creation per edge depends only '
+             'on that edge and ring-invariant parameters; exactly the earlier event is flagged left; collapsed edges create nothing; nothing reads ring '
+             'orientation. Equality of results across representations is not decided.',
+        note=TB, design='4/C07'),
+    'C09': dict(level='other', technique=TECH_PROV + '; comparison-atom table of the shortcut',
+        text='Decides that each shortcut fires only under its geometric precondition: box accumulation (4 updates, operand routing), strict '
+             'disjointness test (16 rows), early break iff Intersection beyond min(max.x) / Difference beyond subject max.x, event recorded before break.',
+        note=TB + 'Equality of results with/without far parts is a relation between two runs and is not decided.', design='4/C09'),
     'C12': dict(
         level='proof', technique='effect/state inventory over type-checked MIR (rustc_private driver) + call-graph reachability',
         text='Whole property, modulo the trusted base: every obligation family (operands behind & to Freeze types, unsafe confined '
@@ -13,6 +58,26 @@ CLAIMS = {
         note='Trusted: rustc type checker/MIR, std collections and IEEE arithmetic deterministic, std callees outside the banned '
              'module list have no ambient effects. Default feature configuration; debug-booleanop adds println!/File::create (listed in thorough evidence).',
         design='4/C12'),
+    'C13': dict(level='other', technique=TECH_PROV + ' on loop-body paths',
+        text='Decides the bookkeeping every sub-segment goes through: one mutually linked pair per non-collapsed edge with exactly one left flag, the '
+             'four links / inheritance / flag swap of divide_segment, the neighbour-check protocol of the sweep loop on insertion and before removal. '
+             'Planarity and coverage of actual sub-segments are not decided.',
+        note=TB, design='4/C13'),
+    'C14': dict(level='other', technique=TECH_TABLE,
+        text='Decides all classification tables completely (propagation 17 rows, selection 64, transitions incl. coincident twins, prev_in_result, '
+             'twin typing) and the recomputation protocol; found F1 and F2 on the pinned tree (both repaired). The choice of predecessor (float order) '
+             'is not decided.',
+        note=TB, design='4/C14'),
+    'C16': dict(level='other', technique=TECH_TABLE + ' with a symbolic model of the local events vector',
+        text='Decides the return-code / division-request / edge-type table of possible_intersection (28 cases), the same-point rule (N2 is the listed '
+             'known finding), clamping, endpoint guards and the parameter-range structure of intersection_impl. Disjointness classification and accuracy '
+             'are numeric and not decided.',
+        note=TB, design='4/C16'),
+    'C18': dict(level='other', technique='call-graph SCC over resolved callees and drop glue; typestate of node drops on MIR paths',
+        text='Decides that no recursion is reachable from the splay/boolean API and that the recursive drop glue of Node only runs on nodes whose '
+             'children were taken: owners have Drop impls that empty their field, the teardown loop is proved shallow, 15 of 21 node-drop sites are '
+             'proved, 6 overwrite drops are an explicit ledger. Found K1 on the pinned tree (repaired).',
+        note=TB + 'std Vec/BinaryHeap/HashSet/Rc drops are iterative; user comparators do not re-enter the tree.', design='4/C18'),
 }
 
 NOT_APPLICABLE = {
@@ -63,7 +128,7 @@ def main():
     json.dump(m, open(os.path.join(V, 'MANIFEST.json'), 'w'), indent=1)
     print('MANIFEST.json: %d checks, %d not_applicable' % (len(checks), len(na)))
 
-SOURCE_COMMITS = []
+SOURCE_COMMITS = ['50658a9', 'e492d0f', 'eba8d94']
 
 if __name__ == '__main__':
     main()
